@@ -14,7 +14,13 @@ open Gossamer Gossamer.C29 Gossamer.HashRef Gossamer.SigRef Gossamer.SrRef
    `rd <32 bytes>`                → err | canonical ristretto255 re-encoding
    `rv <k>`                       → encoding of k·B, twice (published constant ‖ library value on the Go side)
    `sr <pk> <msg> <sig>`          → `<ok|fail> dep=<ok|fail>`  model = go-schnorrkel/gossamer rules,
-                                     spec = Rust schnorrkel rules (Lib/SrRef.lean) -/
+                                     spec = Rust schnorrkel rules (Lib/SrRef.lean)
+   host functions (harness/C29/host_test.go; model `…Go` and Substrate rule `…Ref` in Model/C29.lean):
+   `hh <msg>`                     → blake2_128 blake2_256 keccak_256 sha2_256 twox_64 twox_128 twox_256
+   `hed|hsr1|hsr2 <pk> <msg> <sig64>`, `hecv <pub33> <msg> <sig65>`  → 0|1
+   `hecr1|hecr2|hecc1|hecc2 <msg32> <sig65>`  → SCALE Result bytes (`00‖key` | `01‖EcdsaVerifyError`)
+   prefix `b`: between start/finish_batch_verify (no-ops) → `<ret> finish=1`;
+   prefix `q`: SignatureVerifier started by hand → `<ret> batch=<true|false>` (no spec: dead code in production) -/
 def verdict (b : Bool) : String := if b then "ok" else "fail"
 
 def allHex? : List String → Option (List Bytes)
@@ -34,14 +40,24 @@ def isIdentityKey (pk : Bytes) : Bool :=
   | none => false
 
 def srLine (pk m sg : Bytes) : String :=
-  let model := s!"{verdict (srVerifyGo pk m sg)} dep={verdict (srVerifyDeprecatedGo pk m sg)}"
-  let spec := s!"{verdict (srVerifyRef pk m sg)} dep={verdict (srVerifyDeprecatedRef pk m sg)}"
+  let vGo := srVerifyGo pk m sg
+  let vRef := srVerifyRef pk m sg
+  let model := s!"{verdict vGo} dep={verdict (srVerifyDeprecatedGo pk m sg)}"
+  let spec := s!"{verdict vRef} dep={verdict (srVerifyDeprecatedRef pk m sg)}"
   if model == spec then model
-  else s!"{model}\tspec={spec}\tkf={if isIdentityKey pk then "sr25519-identity-key" else "sr25519-deprecated-differs"}"
+  else if isIdentityKey pk then s!"{model}\tspec={spec}\tkf=sr25519-identity-key"
+  -- any other key: only the deprecated entry point is known to differ; a different verdict of
+  -- VerifySignature itself carries no tag and is reported as a violation
+  else if vGo == vRef then s!"{model}\tspec={spec}\tkf=sr25519-deprecated-differs"
+  else s!"{model}\tspec={spec}"
 
 def bit (b : Bool) : String := if b then "1" else "0"
 
-/-- one host call: (model, spec, tag) -/
+/-- the region of finding `ecdsa-recover-v1-overflowing`: version 1 only, r or s not below the group order -/
+def overflowTag (sg : Bytes) : String :=
+  if natOfBE (sg.take 32) ≥ skN || natOfBE ((sg.drop 32).take 32) ≥ skN then "ecdsa-recover-v1-overflowing" else ""
+
+/-- one host call: (model, spec, tag); an empty tag means model and spec must coincide -/
 def hostCall (op : String) (args : List Bytes) : Option (String × String × String) :=
   match op, args with
   | "hh", [m] =>
@@ -56,10 +72,10 @@ def hostCall (op : String) (args : List Bytes) : Option (String × String × Str
       if pk == zeros32 then "sr25519-zero-key-always-valid" else "")
   | "hecv", [pub, m, sg] =>
     some (bit (hostEcvGo pub m sg), bit (hostEcvRef pub m sg), "")
-  | "hecr1", [m, sg] => some (hex (hostRecoverGo false m sg), hex (hostRecoverRef 1 false m sg), "R")
-  | "hecr2", [m, sg] => some (hex (hostRecoverGo false m sg), hex (hostRecoverRef 2 false m sg), "R")
-  | "hecc1", [m, sg] => some (hex (hostRecoverGo true m sg), hex (hostRecoverRef 1 true m sg), "R")
-  | "hecc2", [m, sg] => some (hex (hostRecoverGo true m sg), hex (hostRecoverRef 2 true m sg), "R")
+  | "hecr1", [m, sg] => some (hex (hostRecoverGo false m sg), hex (hostRecoverRef 1 false m sg), overflowTag sg)
+  | "hecr2", [m, sg] => some (hex (hostRecoverGo false m sg), hex (hostRecoverRef 2 false m sg), "")
+  | "hecc1", [m, sg] => some (hex (hostRecoverGo true m sg), hex (hostRecoverRef 1 true m sg), overflowTag sg)
+  | "hecc2", [m, sg] => some (hex (hostRecoverGo true m sg), hex (hostRecoverRef 2 true m sg), "")
   | _, _ => none
 
 /-- the queueing branch (SignatureVerifier started by hand; dead code in production because
@@ -81,12 +97,10 @@ def hostLine (op0 : String) (args : List Bytes) : String :=
   match hostCall op args with
   | none => "bad-op"
   | some (model, spec, tag) =>
-    if mode == 'b' && (op == "hh" || tag == "R") then "bad-op" else
+    if mode == 'b' && (op == "hh" || op.startsWith "hecr" || op.startsWith "hecc") then "bad-op" else
     let sfx := if mode == 'b' then " finish=1" else ""
-    -- recovery: the error variant is missing (tag by cause)
-    let tag := if tag == "R" then
-        "ecdsa-recover-v1-overflowing" else tag
     if model == spec then model ++ sfx
+    else if tag == "" then s!"{model}{sfx}\tspec={spec}{sfx}"
     else s!"{model}{sfx}\tspec={spec}{sfx}\tkf={tag}"
 
 def step (line : String) : String :=
